@@ -391,7 +391,7 @@ PROPS["C01"] = dict(
 # Tier bookkeeping from measurements: harnesses never observed to finish go to the experimental
 # tier (not part of the quick or thorough command); every remaining thorough-only job is capped
 # at 45 minutes so that a thorough command ends in bounded time.
-_EXPERIMENTAL = ("builder::", "blayout::c03_layout_l4_fp", "blayout::c03_layout_l2_mi", "blayout::c03_layout_l1_mi_sha_fp", "blayout::c03_layout_l5_mi_fp",
+_EXPERIMENTAL = ("builder::", "c01::c01_typed_username", "blayout::c03_layout_l4_fp", "blayout::c03_layout_l2_mi", "blayout::c03_layout_l1_mi_sha_fp", "blayout::c03_layout_l5_mi_fp",
                  "blayout::c03_layout_l6_sha_fp", "blayout::c03_layout_l7_mi_sha", "blayout::c11_rules_1", "blayout::c11_rules_2", "blayout::c11_rules_4", "blayout::c11_rules_5",
                  "blayout::c11_rules_6", "c09::c09_builder_fingerprint_real_crc", "c09::c09_parser_fingerprint_real_crc", "c06cfg::c06_configure_tcp_3", "c06cfg::c06_configure_tcp_8",
                  "c16::c16_verdict", "c16::c16_response_", "c16::c16_fixed_request_rec", "c04::c04_validate_record", "agenth::c05_send_step_sha1", "agenth::c07_send_step_sha1",
